@@ -446,14 +446,44 @@ type c13replay struct {
 }
 
 type c13state struct {
-	r     *vrun.Run
-	evals int64
+	r      *vrun.Run
+	evals  int64
+	ocache [2]map[string]string
 }
 
 // judge records the outcome of one evaluation, returns whether this function stays alive for extensions.
 func (s *c13state) judge(fn int, in []byte, gen string, size int, risk bool, res *c13res) bool {
 	r := s.r
 	r.Evaluations++
+	name := c13fnName[fn]
+	if res.Out == "panic" || res.Out == "crash" || (res.Alloc > c13bound(in) && gen == "") {
+		s.violation(fn, in, gen, size, risk, res)
+		return false
+	}
+	// fast path: outcome class through a small cache (no string building per evaluation)
+	if s.ocache[fn] == nil {
+		s.ocache[fn] = map[string]string{}
+	}
+	ck := res.Detail // "" for a value
+	key, ok := s.ocache[fn][ck]
+	if !ok {
+		if res.Out == "value" {
+			key = name + ": value"
+		} else {
+			d := c13stripDigits(res.Detail)
+			if len(d) > 60 {
+				d = d[:60]
+			}
+			key = name + ": error: " + d
+		}
+		s.ocache[fn][ck] = key
+	}
+	r.Outcome(key)
+	return res.More
+}
+
+func (s *c13state) violation(fn int, in []byte, gen string, size int, risk bool, res *c13res) {
+	r := s.r
 	name := c13fnName[fn]
 	rp := c13replay{Fn: fn, In: in, Gen: gen, Size: size, Risk: risk}
 	show := fmt.Sprintf("%q", in)
@@ -466,7 +496,6 @@ func (s *c13state) judge(fn int, in []byte, gen string, size int, risk bool, res
 		r.Outcome(name + ": PANIC")
 		r.Violate(fmt.Sprintf("panic in %s (%s)", res.Site, c13stripDigits(res.Detail)),
 			fmt.Sprintf("%s on input %s + EOF (bufio %d): panic: %s", name, show, size, res.Detail), rp)
-		return false
 	case "crash":
 		r.Outcome(name + ": FATAL CRASH")
 		cls := c13stripDigits(res.Detail)
@@ -477,24 +506,11 @@ func (s *c13state) judge(fn int, in []byte, gen string, size int, risk bool, res
 		}
 		r.Violate(fmt.Sprintf("process dies with unrecoverable fatal error (%s)", cls),
 			fmt.Sprintf("%s on input %s + EOF (bufio %d) in a child process limited to 4 GiB address space: %s", name, show, size, res.Detail), rp)
-		return false
-	}
-	if res.Alloc > c13bound(in) && gen == "" {
+	default:
 		r.Outcome(name + ": EXCESSIVE ALLOCATION")
 		r.Violate(fmt.Sprintf("allocation not bounded by received bytes (%s)", c13culprit(in)),
 			fmt.Sprintf("%s on input %s + EOF (%d bytes, bufio %d): %d bytes allocated while decoding (bound 1MiB+64*len = %d); outcome %s %s", name, show, len(in), size, res.Alloc, c13bound(in), res.Out, res.Detail), rp)
-		return false
 	}
-	if res.Out == "value" {
-		r.Outcome(name + ": value")
-	} else {
-		d := c13stripDigits(res.Detail)
-		if len(d) > 60 {
-			d = d[:60]
-		}
-		r.Outcome(name + ": error: " + d)
-	}
-	return res.More
 }
 
 // explore does the level-wise search over the token alphabet.
